@@ -101,6 +101,7 @@ type Exec struct {
 	observed    []Observed
 	cegarRounds int
 	pendingExclude []ExcludeCond
+	havoc    bool
 	env      map[string]*big.Int
 	envMemo  map[int]*Term
 	nTrivial    int
@@ -114,6 +115,14 @@ type frame struct {
 	info   *funcInfo
 	locals []Value
 	visits map[int]int
+	defers []deferred
+}
+
+type deferred struct {
+	call *ssa.CallCommon
+	fn   Value   // evaluated callee (static or closure)
+	recv IfaceV  // for invoke mode
+	args []Value // evaluated at defer time
 }
 
 type funcInfo struct {
@@ -166,7 +175,7 @@ func (fr *frame) set(v ssa.Value, val Value) { fr.locals[fr.info.index[v]] = val
 
 
 const maxSteps = 20_000_000
-const maxBlockVisits = 5000
+const maxBlockVisits = 200000
 
 func (x *Exec) fresh(prefix string, w int) *Term {
 	x.freshN++
@@ -882,6 +891,9 @@ func (x *Exec) call(fn *ssa.Function, args []Value) Value {
 	if h, ok := x.intrinsic(fn); ok {
 		return h(x, fn, args)
 	}
+	if x.havoc && !x.inInit && !x.isHarnessFunc(fn) {
+		return x.havocResult(fn)
+	}
 	if fn.Blocks == nil {
 		panic(unsupported("call of function without body: " + fn.String()))
 	}
@@ -1064,8 +1076,29 @@ func (x *Exec) step(fr *frame, ins ssa.Instruction) {
 	case *ssa.Next:
 		fr.set(i, x.rangeNext(fr, i))
 	case *ssa.RunDefers:
+		for len(fr.defers) > 0 {
+			d := fr.defers[len(fr.defers)-1]
+			fr.defers = fr.defers[:len(fr.defers)-1]
+			if d.call.IsInvoke() {
+				x.invoke(d.recv, d.call.Method, d.args)
+			} else if b, ok := d.call.Value.(*ssa.Builtin); ok {
+				x.builtin(b, d.args, d.call)
+			} else {
+				x.callValue(d.fn, d.args)
+			}
+		}
 	case *ssa.Defer:
-		panic(unsupported("defer in " + fr.fn.String()))
+		// arguments are evaluated now, the call runs at RunDefers (no recover support: a panic ends the path)
+		d := deferred{call: &i.Call}
+		for _, a := range i.Call.Args {
+			d.args = append(d.args, x.get(fr, a))
+		}
+		if i.Call.IsInvoke() {
+			d.recv = x.get(fr, i.Call.Value).(IfaceV)
+		} else if _, ok := i.Call.Value.(*ssa.Builtin); !ok {
+			d.fn = x.get(fr, i.Call.Value)
+		}
+		fr.defers = append(fr.defers, d)
 	case *ssa.Go:
 		panic(unsupported("go statement in " + fr.fn.String()))
 	case *ssa.Send, *ssa.Select, *ssa.MakeChan:
@@ -1149,6 +1182,9 @@ func (x *Exec) binop(op token.Token, a, b Value, ta, tb types.Type) Value {
 					return Bool(sa >= sb)
 				}
 			}
+		}
+		if r, ok := x.strOrder(op, a, b); ok {
+			return r
 		}
 		panic(unsupported("string operator " + op.String() + " on symbolic text"))
 	}
@@ -1994,4 +2030,74 @@ func (x *Exec) builtinAppend(dst SliceV, srcv Value, c *ssa.CallCommon) Value {
 	o := x.newObj("append", nil, &ArrV{Elems: elems})
 	n := BVi(int64(len(elems)), 64)
 	return SliceV{Obj: o, Off: BVi(0, 64), Len: n, Cap: n}
+}
+
+
+// strOrder lifts an ordering comparison between a table-lifted token and a concrete string
+// (or two concrete strings) over the table.
+func (x *Exec) strOrder(op token.Token, a, b Value) (*Term, bool) {
+	cmp := func(p, q string) bool {
+		switch op {
+		case token.LSS:
+			return p < q
+		case token.LEQ:
+			return p <= q
+		case token.GTR:
+			return p > q
+		case token.GEQ:
+			return p >= q
+		}
+		return false
+	}
+	lift := func(tok []Atom, other string, tokLeft bool) (*Term, bool) {
+		if len(tok) != 1 || tok[0].K != ATok {
+			return nil, false
+		}
+		var keys, vals []int
+		var key *Term
+		if tok[0].Tab != nil {
+			key = tok[0].Idx
+			for i, id := range tok[0].Tab {
+				s, _ := x.in.Str(id)
+				r := cmp(other, s)
+				if tokLeft {
+					r = cmp(s, other)
+				}
+				keys = append(keys, i)
+				if r {
+					vals = append(vals, 1)
+				} else {
+					vals = append(vals, 0)
+				}
+			}
+		} else {
+			key = tok[0].T
+			for i, s := range x.in.strs {
+				r := cmp(other, s)
+				if tokLeft {
+					r = cmp(s, other)
+				}
+				keys = append(keys, i)
+				if r {
+					vals = append(vals, 1)
+				} else {
+					vals = append(vals, 0)
+				}
+			}
+		}
+		dflt := ZExt(Ite(x.fresh("strcmp", 0), BVi(1, 1), BVi(0, 1)), 8)
+		v, _ := pwApply(keys, vals, key, 8, dflt)
+		return Eq(v, BVi(1, 8)), true
+	}
+	if sb, ok := b.(string); ok {
+		if sa, ok := a.(*SymStr); ok && simpleAtoms(sa.A) {
+			return lift(sa.A, sb, true)
+		}
+	}
+	if sa, ok := a.(string); ok {
+		if sb, ok := b.(*SymStr); ok && simpleAtoms(sb.A) {
+			return lift(sb.A, sa, false)
+		}
+	}
+	return nil, false
 }
